@@ -15,7 +15,7 @@ if "--tier" in args:
     tier = args[i + 1]
     del args[i:i + 2]
 ids = args or sorted(d for d in os.listdir(os.path.join(VERIF, "seeded")) if os.path.isdir(os.path.join(VERIF, "seeded", d)))
-respath = os.path.join(VERIF, "seeded", "RESULTS.json")
+respath = os.environ.get("SEEDED_RESULTS") or os.path.join(VERIF, "seeded", "RESULTS.json")
 results = json.load(open(respath)) if os.path.exists(respath) else {}
 for sid in ids:
     d = os.path.join(VERIF, "seeded", sid)
@@ -34,7 +34,7 @@ for sid in ids:
     print("%-8s %-4s %-9s %5.0fs %s" % (sid, prop, verdict, time.time() - t0, "; ".join(results[sid]["violations"])[:160]))
     shutil.rmtree(tmp, ignore_errors=True)
     json.dump(results, open(respath, "w"), indent=1, sort_keys=True)
-with open(os.path.join(VERIF, "seeded", "RESULTS.md"), "w") as f:
+with open(os.path.splitext(respath)[0] + ".md", "w") as f:
     f.write("| seeded change | property | tier | verdict | caught by (scenario: fingerprint) |\n|---|---|---|---|---|\n")
     for sid in sorted(results):
         r = results[sid]
